@@ -9,5 +9,5 @@ CONSTANTS
 VIEW sview
 ACTION_CONSTRAINT GenLog
 INVARIANTS TypeOK NoDupNonce NoDupHash ReadyIsGapFree CountersExact NoStaleAfterBlock BaseNonceSynced
-PROPERTIES ScanSyncs FullScanSyncsAll PutOutcome
+PROPERTIES ScanSyncs FullScanSyncsAll PutOutcome GetOffersRuns
 CHECK_DEADLOCK FALSE
